@@ -1,0 +1,7 @@
+//go:build !verif
+
+package simhook
+
+// Yield marks a point at which a simulator may switch to another goroutine.
+// It does nothing in regular builds.
+func Yield(label string) {}
